@@ -247,7 +247,7 @@ func main() {
 		return
 	}
 	r := hx.NewRng(a.Seed)
-	for c := 0; c < a.N(150); c++ {
+	for c := 0; c < a.N(100); c++ {
 		oneCase(r, 40)
 	}
 }
